@@ -13,6 +13,7 @@ import (
 	"github.com/brewlin/net-protocol/pkg/waiter"
 	tcpip "github.com/brewlin/net-protocol/protocol"
 	"github.com/brewlin/net-protocol/protocol/network/ipv4"
+	"github.com/brewlin/net-protocol/protocol/network/ipv6"
 	"github.com/brewlin/net-protocol/protocol/transport/tcp"
 	"github.com/brewlin/net-protocol/protocol/transport/udp"
 	"github.com/brewlin/net-protocol/stack"
@@ -71,6 +72,7 @@ type dmSock struct {
 	reserves bool          // holds a port reservation (UDP sockets, TCP listeners)
 	nic      int           // 0: any interface; k: bound or connected through NIC k only
 	loose    bool          // bound to the wildcard address, then connected: whether it still hears other local addresses is not asserted
+	protos   int           // network protocols its reservation covers: 1 IPv4, 3 IPv4+IPv6 (dual-stack IPv6 socket); 0 means 1
 	fake     *fakeEP       // registered directly with the stack's demultiplexer (no socket, no port reservation)
 }
 
@@ -148,6 +150,7 @@ func (w *dmWorld) winner(isTCP bool, nic int, dst tcpip.Address, dport uint16, s
 
 func (w *dmWorld) conflict(isTCP bool, laddr tcpip.Address, lport uint16) bool {
 	for _, s := range w.socks {
+		// (every socket of this world reserves for IPv4 at least, so the protocol sets always intersect)
 		if !s.closed && s.reserves && s.tcp == isTCP && s.lport == lport && (s.resAddr == laddr || s.resAddr == "" || laddr == "") {
 			return true
 		}
@@ -213,8 +216,24 @@ func (w *dmWorld) openAt(kind int, laddr tcpip.Address, lport uint16, ri, mode, 
 		if kind == 1 && laddr == "" && mode&4 == 0 {
 			laddr = dmLocal[1]
 		}
-		ep, err := w.S.S.NewEndpoint(udp.ProtocolNumber, ipv4.ProtocolNumber, &waiter.Queue{})
+		dual := mode&32 != 0
+		netw := ipv4.ProtocolNumber
+		if dual {
+			// an IPv6 socket bound to the wildcard address serves IPv4 as well: its reservation covers both protocols
+			netw, laddr, mode = ipv6.ProtocolNumber, "", mode&^1|4
+		}
+		ep, err := w.S.S.NewEndpoint(udp.ProtocolNumber, netw, &waiter.Queue{})
 		must(err, "udp endpoint")
+		if mode&16 != 0 {
+			// a bind through an interface that does not exist fails - and must leave nothing behind
+			if e := ep.Bind(tcpip.FullAddress{NIC: 99, Addr: laddr, Port: lport}, nil); e == nil {
+				w.Probes["bind_to_unknown_interface_succeeded"]++
+			} else {
+				w.Probes["bind_to_unknown_interface_refused"]++
+			}
+			ep.Close()
+			return nil
+		}
 		var bnic tcpip.NICID
 		if mode&1 != 0 {
 			bnic = nicOf(laddr)
@@ -229,7 +248,11 @@ func (w *dmWorld) openAt(kind int, laddr tcpip.Address, lport uint16, ri, mode, 
 			ep.Close()
 			return nil
 		}
-		s := &dmSock{ep: ep, laddr: laddr, lport: lport, resAddr: laddr, reserves: true, nic: int(bnic)}
+		s := &dmSock{ep: ep, laddr: laddr, lport: lport, resAddr: laddr, reserves: true, nic: int(bnic), protos: 1}
+		if dual {
+			s.protos = 3
+			w.Probes["dual_stack_sockets"]++
+		}
 		if bnic != 0 {
 			w.Probes["sockets_bound_to_an_interface"]++
 		}
@@ -241,7 +264,7 @@ func (w *dmWorld) openAt(kind int, laddr tcpip.Address, lport uint16, ri, mode, 
 			}
 			if laddr == dmLocal[3] || bnic == 2 {
 				// NIC2 cannot reach the 10.0.0.x peers through the route table: keep it bound only
-			} else if e := ep.Connect(tcpip.FullAddress{NIC: cnic, Addr: ra, Port: rp}); e == nil {
+			} else if e := ep.Connect(tcpip.FullAddress{NIC: cnic, Addr: mapped(ra, dual), Port: rp}); e == nil {
 				s.raddr, s.rport = ra, rp
 				if cnic != 0 {
 					s.nic = int(cnic)
@@ -345,6 +368,14 @@ func (w *dmWorld) openAt(kind int, laddr tcpip.Address, lport uint16, ri, mode, 
 		made = s
 	}
 	return made
+}
+
+// mapped returns the IPv4-mapped IPv6 form of a, which is how a dual-stack socket names an IPv4 peer.
+func mapped(a tcpip.Address, dual bool) tcpip.Address {
+	if !dual {
+		return a
+	}
+	return tcpip.Address("\x00\x00\x00\x00\x00\x00\x00\x00\x00\x00\xff\xff") + a
 }
 
 func (w *dmWorld) closeSock(s *dmSock) {
@@ -567,6 +598,12 @@ func (w *dmWorld) next() Step {
 			mode = r.Pick(6, 1, 1, 0, 2) // plain / bound through an interface / connected through an interface / wildcard kept
 			if mode == 4 && r.Chance(0.3) {
 				mode = 6
+			}
+			switch r.Pick(12, 1, 2) {
+			case 1:
+				mode |= 16 // through an interface that does not exist
+			case 2:
+				mode |= 32 // dual-stack IPv6 socket
 			}
 		case 4:
 			mode = []int{0, 2, 8, 10}[r.Intn(4)]
